@@ -15,9 +15,13 @@ let z_of_int n = if n = 0 then Z0 else if n > 0 then Zpos (pos_of_int n) else Zn
 let rec int_of_pos = function XH -> 1 | XO p -> 2 * int_of_pos p | XI p -> 2 * int_of_pos p + 1
 let int_of_z = function Z0 -> 0 | Zpos p -> int_of_pos p | Zneg p -> - (int_of_pos p)
 
+(* one shared Z per byte value: a buffer costs a cons cell per byte instead of a fresh positive *)
+let ztab = Array.init 256 z_of_int
+let hexval c = match c with '0'..'9' -> Char.code c - 48 | 'a'..'f' -> Char.code c - 87 | 'A'..'F' -> Char.code c - 55
+                          | _ -> failwith "bad hex digit"
 let bytes_of_hex s =
   let n = String.length s / 2 in
-  List.init n (fun i -> z_of_int (int_of_string ("0x" ^ String.sub s (2*i) 2)))
+  List.init n (fun i -> ztab.(16 * hexval s.[2*i] + hexval s.[2*i+1]))
 let hex_of_bytes l = String.concat "" (List.map (fun b -> Printf.sprintf "%02x" (int_of_z b)) l)
 
 let show_item = function IOk s -> "O:" ^ hex_of_bytes s | IErr -> "E"
@@ -107,7 +111,7 @@ let parse_wans tok =
 let parse_fans tok =
   match tok with "o" -> FOk | "p" -> FPending | "e" -> FErr | _ -> failwith ("bad flush answer " ^ tok)
 (* payload of an item: byte j = 'a' + (seed + j) mod 26 *)
-let payload len seed = List.init len (fun j -> z_of_int (97 + (seed + j) mod 26))
+let payload len seed = List.init len (fun j -> ztab.(97 + (seed + j) mod 26))
 let parse_op tok =
   match tok.[0] with
   | 'r' -> OReady | 'f' -> OFlush | 'c' -> OClose
@@ -142,6 +146,8 @@ let c14 line =
   | _ -> failwith "c14: expected 5 fields"
 
 let () =
+  (* the models allocate long lists; a large minor heap keeps the major GC out of the way *)
+  Gc.set { (Gc.get ()) with Gc.minor_heap_size = 8 * 1024 * 1024; Gc.space_overhead = 400 };
   let f = match Sys.argv.(1) with
     | "c15" -> c15 | "c15enc" -> c15enc | "c13" -> c13 | "c14" -> c14
     | m -> failwith ("unknown mode " ^ m) in
